@@ -364,6 +364,14 @@ impl<T: HashAlgorithm> Nomt<T> {
         #[cfg(nomt_verif)]
         let _ = crate::verif_hook::step("guard_write");
 
+        // A poisoned store refuses rollbacks like it refuses commits, before the rollback log is
+        // touched: truncating the log is destructive and the in-memory state may be inconsistent.
+        #[cfg(nomt_verif)]
+        let _ = crate::verif_hook::step("poison_check");
+        if self.store.is_poisoned() {
+            anyhow::bail!("Store is poisoned due to prior error");
+        }
+
         let Some(rollback) = self.store.rollback() else {
             anyhow::bail!("rollback: not enabled");
         };
